@@ -17,11 +17,13 @@ Lemma eqb_out_refl x : eqb_out x x = true.
 Proof. destruct x as [[b|]|]; cbn; auto. apply Bool.eqb_reflx. Qed.
 Lemma perm_iev_refl l : perm_iev l l = true.
 Proof. unfold perm_iev. apply forallb_forall. intros x _. apply Nat.eqb_refl. Qed.
+Lemma eqb_oaddr_refl x : eqb_oaddr x x = true.
+Proof. destruct x; cbn; auto. apply N.eqb_refl. Qed.
 Lemma eqb_obs_refl x : eqb_obs x x = true.
 Proof.
   unfold eqb_obs. rewrite Bool.eqb_reflx, Z.eqb_refl.
   rewrite (eqb_list_refl _ eqb_acct_refl), (eqb_list_refl _ Z.eqb_refl),
-    perm_iev_refl, (eqb_list_refl _ eqb_cev_refl), !Bool.eqb_reflx. reflexivity.
+    perm_iev_refl, (eqb_list_refl _ eqb_cev_refl), !eqb_oaddr_refl. reflexivity.
 Qed.
 
 Lemma eqb_acct_true b1 f1 l1 b2 f2 l2 :
@@ -114,6 +116,7 @@ Ltac acct_fin :=
 Lemma exec_facts hc c s r s' lk la la' prev cur :
   Inv s -> sound_lk s lk -> sound_la s la -> sound_la s' la' -> idv_log s = [] -> cmp_log s = [] ->
   ob_paused prev = paused s -> ob_idv cur = idv_log s' -> ob_cmp cur = cmp_log s' ->
+  ob_cmp_at prev = link_cmp s -> ob_idv_at prev = link_idv s ->
   exec_with transfer_from hc c s = Ok (r, s') ->
   gates_ok lk la la' prev cur c r = true /\
   (forall a, match expect_acct lk c r a (acct_of s a) with
@@ -126,9 +129,10 @@ Lemma exec_facts hc c s r s' lk la la' prev cur :
   | None => True
   end.
 Proof.
-  intros HI HS HA HA' Li Lc Hp Hi Hc H.
+  intros HI HS HA HA' Li Lc Hp Hi Hc Hl1 Hl2 H.
   unfold exec_with, unit_ret in H. binds H.
   unfold gates_ok, expect_acct, paused_after, expected_notifs, gates_transfer, gates_mint, gates_recover, allowance_spent.
+  replace (eff_obs prev c) with (eff_orc s c) by (unfold eff_obs, eff_orc; rewrite Hl1, Hl2; reflexivity).
   rewrite Hp, Hi, Hc.
   destruct (c_op c); binds H; subst.
   - (* transfer *)
@@ -229,36 +233,9 @@ Proof.
     split; [|split; [|split]]; try reflexivity.
     + assumption.
     + intros z. apply eqb_acct_refl.
-  - cbn [cmp_log set_cmp_set paused]. rewrite Lc. split; [|split; [|split]]; try reflexivity. intros z. apply eqb_acct_refl.
-  - cbn [cmp_log set_idv_set paused]. rewrite Lc. split; [|split; [|split]]; try reflexivity. intros z. apply eqb_acct_refl.
+  - cbn [cmp_log set_cmp_at paused]. rewrite Lc. split; [|split; [|split]]; try reflexivity. intros z. apply eqb_acct_refl.
+  - cbn [cmp_log set_idv_at paused]. rewrite Lc. split; [|split; [|split]]; try reflexivity. intros z. apply eqb_acct_refl.
   - cbn [cmp_log set_now paused]. rewrite Lc. split; [|split; [|split]]; try reflexivity. intros z. apply eqb_acct_refl.
-Qed.
-
-(* the links to the collaborators change only through set_compliance / set_identity_verifier *)
-Lemma exec_links hc c s r s' :
-  Inv s -> exec_with transfer_from hc c s = Ok (r, s') ->
-  cmp_set s' = (match c_op c with SetCompliance _ => true | _ => cmp_set s end) /\
-  idv_set s' = (match c_op c with SetIdentityVerifier _ => true | _ => idv_set s end).
-Proof.
-  intros HI H. unfold exec_with, unit_ret in H. binds H.
-  destruct (c_op c); binds H; subst.
-  - use transfer_spec. unfold same_core in *. decomp. split; congruence.
-  - use transfer_from_spec. unfold same_core in *. decomp. split; congruence.
-  - use set_allowance_frame. unfold same_core in *. decomp. split; congruence.
-  - use mint_spec. unfold same_core in *. decomp. split; congruence.
-  - use burn_spec. unfold same_core in *. decomp. split; congruence.
-  - use forced_transfer_spec. unfold same_core in *. decomp. split; congruence.
-  - destruct x1 as [b s2]. cbv beta iota in H. binds H. subst.
-    match goal with H : recover_balance _ _ _ _ = _ |- _ => apply (recover_spec _ _ _ s _ _ HI) in H end.
-    decomp. split; congruence.
-  - unfold set_address_frozen in *. binds E0. split; reflexivity.
-  - use freeze_spec. unfold same_core in *. decomp. split; congruence.
-  - use unfreeze_spec. unfold same_core in *. decomp. split; congruence.
-  - unfold pause in *. binds E0. split; reflexivity.
-  - unfold unpause in *. binds E0. split; reflexivity.
-  - split; reflexivity.
-  - split; reflexivity.
-  - split; reflexivity.
 Qed.
 
 (* ------------------------------------------------------------------ *)
@@ -280,37 +257,91 @@ Proof.
   apply andb_true_intro. split; apply Z.leb_le; lia.
 Qed.
 
-Definition allow_of (s : state) (p : addr * addr) : Z := allowance s (fst p) (snd p).
 
 Lemma links_ok_model hc univ prev s c s' o :
-  Inv s -> ob_cmp_set prev = cmp_set s -> ob_idv_set prev = idv_set s ->
+  ob_cmp_at prev = link_cmp s -> ob_idv_at prev = link_idv s ->
   step hc s c = (s', o) ->
   links_ok prev (observe univ s') c (is_ok o) = true.
 Proof.
-  intros HI H1 H2 Hs. unfold links_ok, links_after, observe. cbn [ob_cmp_set ob_idv_set]. rewrite H1, H2.
-  destruct o as [r|]; cbn [is_ok].
-  - apply step_ok in Hs. destruct (exec_links hc c (clear_logs s) r s' HI Hs) as [A B].
-    cbn [cmp_set idv_set clear_logs] in A, B. rewrite A, B.
-    destruct (c_op c); cbn [fst snd]; rewrite !Bool.eqb_reflx; reflexivity.
-  - apply step_fail in Hs. subst s'. cbn [cmp_set idv_set clear_logs].
-    destruct (c_op c); cbn [fst snd]; rewrite !Bool.eqb_reflx; reflexivity.
+  intros H1 H2 Hs. unfold links_ok, links_after, observe. cbn [ob_cmp_at ob_idv_at]. rewrite H1, H2.
+  destruct (links_step hc s c s' o Hs) as [A B]. rewrite A, B.
+  destruct (c_op c); cbn [fst snd]; rewrite !eqb_oaddr_refl; reflexivity.
+Qed.
+
+(* whoever was asked is the collaborator registered before the call *)
+Lemma asked_ok_model hc univ prev s c s' o :
+  Inv s -> ob_cmp_at prev = link_cmp s -> ob_idv_at prev = link_idv s ->
+  step hc s c = (s', o) ->
+  asked_ok prev (observe univ s') = true.
+Proof.
+  intros HI H1 H2 Hs. unfold asked_ok, observe. cbn [ob_cmp ob_idv ob_cmp_from ob_idv_from]. rewrite H1, H2.
+  destruct (links_step hc s c s' o Hs) as [A B].
+  destruct (step_logs hc s c s' o HI Hs) as [LC LI].
+  apply andb_true_intro. split.
+  - destruct (cmp_log s') eqn:E; [reflexivity|]. rewrite A.
+    destruct (c_op c) eqn:Hop; try apply eqb_oaddr_refl.
+    exfalso. unfold expected_cmp_log in LC. rewrite Hop in LC. destruct o; discriminate.
+  - destruct (idv_log s') eqn:E; [reflexivity|]. rewrite B.
+    destruct (c_op c) eqn:Hop; try apply eqb_oaddr_refl.
+    exfalso. unfold expected_idv_log in LI. rewrite Hop in LI. destruct o; discriminate.
+Qed.
+
+Definition allow_of (s : state) (p : addr * addr) : Z := allowance s (fst p) (snd p).
+
+Lemma allow_ok_model c ok s s' :
+  (forall pr, allow_after c ok pr (allow_of s pr) (allow_of s' pr) = true) ->
+  forall prs, allow_ok c ok prs (map (allow_of s) prs) (map (allow_of s') prs) = true.
+Proof.
+  intros H prs. induction prs as [|pr r IH]; cbn [map allow_ok]; auto. rewrite H, IH. reflexivity.
+Qed.
+
+Lemma allow_after_model hc s c s' o pr :
+  step hc s c = (s', o) -> allow_after c (is_ok o) pr (allow_of s pr) (allow_of s' pr) = true.
+Proof.
+  intros Hs. unfold allow_after, allow_of. destruct pr as [ow sp]. cbn [fst snd]. destruct o as [r|]; cbn [is_ok].
+  - pose proof (allowance_frame hc s c s' r ow sp Hs) as F.
+    destruct (c_op c); try (rewrite F; apply Z.eqb_refl).
+    + change (Run.C04Token.pair_eqb (ow, sp) (from, spender)) with (Proofs.Rwa.pair_eqb (ow, sp) (from, spender)).
+      rewrite F. destruct (Proofs.Rwa.pair_eqb (ow, sp) (from, spender)); apply Z.eqb_refl.
+    + change (Run.C04Token.pair_eqb (ow, sp) (owner, spender)) with (Proofs.Rwa.pair_eqb (ow, sp) (owner, spender)).
+      rewrite F. destruct (Proofs.Rwa.pair_eqb (ow, sp) (owner, spender)); apply Z.eqb_refl.
+    + destruct F as [F|F]; rewrite F, Z.eqb_refl; [reflexivity|apply orb_true_r].
+  - apply step_fail in Hs. subst s'. apply Z.eqb_refl.
+Qed.
+
+Lemma supply_model hc s c s' o prev :
+  ob_supply prev = supply s -> step hc s c = (s', o) ->
+  (supply s' =? supply_after prev c (is_ok o)) = true.
+Proof.
+  intros Hp Hs. unfold supply_after. rewrite Hp. apply Z.eqb_eq. destruct o as [r|]; cbn [is_ok].
+  - rewrite (supply_frame hc s c s' r Hs). destruct (c_op c); lia.
+  - apply step_fail in Hs. subst s'. reflexivity.
 Qed.
 
 Lemma mon_step_model hc univ prev s c s' o :
   Inv s -> ob_paused prev = paused s -> ob_accts prev = map (acct_of s) univ ->
   ob_allow prev = map (allow_of s) (pairs univ) ->
-  ob_cmp_set prev = cmp_set s -> ob_idv_set prev = idv_set s ->
+  ob_cmp_at prev = link_cmp s -> ob_idv_at prev = link_idv s -> ob_supply prev = supply s ->
+  wf_call univ c = true ->
   step hc s c = (s', o) ->
   mon_step univ prev (I c o (observe univ s')) = true.
 Proof.
-  intros HI Hp Ha Hal Hl1 Hl2 Hs. unfold mon_step. cbn [it_obs it_out it_call].
-  rewrite (links_ok_model hc univ prev s c s' o HI Hl1 Hl2 Hs).
+  intros HI Hp Ha Hal Hl1 Hl2 Hsu Hwf Hs. unfold mon_step. cbn [it_obs it_out it_call].
+  rewrite Hwf.
+  rewrite (links_ok_model hc univ prev s c s' o Hl1 Hl2 Hs).
+  rewrite (asked_ok_model hc univ prev s c s' o HI Hl1 Hl2 Hs).
   assert (HI' : Inv s').
   { pose proof (step_preserves_Inv hc s c HI) as P. rewrite Hs in P. exact P. }
   rewrite (inv_ok_model univ s' HI').
   replace (length (ob_accts (observe univ s')) =? length univ)%nat with true
     by (symmetry; unfold observe; cbn [ob_accts]; rewrite map_length; apply Nat.eqb_refl).
   cbn [andb]. rewrite Ha, Hal.
+  replace (allow_ok c (is_ok o) (pairs univ) (map (allow_of s) (pairs univ)) (ob_allow (observe univ s'))) with true
+    by (symmetry; unfold observe; cbn [ob_allow];
+        apply (allow_ok_model c (is_ok o) s s'); intros pr; apply (allow_after_model hc s c s' o pr Hs)).
+  replace (ob_supply (observe univ s') =? supply_after prev c (is_ok o)) with true
+    by (symmetry; unfold observe; cbn [ob_supply]; apply (supply_model hc s c s' o prev Hsu Hs)).
+  cbn [andb].
   destruct o as [r|].
   - apply step_ok in Hs.
     assert (HS : sound_lk (clear_logs s) (fun a => look a (combine univ (map (acct_of s) univ)))).
@@ -319,7 +350,7 @@ Proof.
     { intros o sp v L. apply look2_sound in L. exact L. }
     assert (HA' : sound_la s' (fun o sp => look2 o sp (combine (pairs univ) (ob_allow (observe univ s'))))).
     { intros o sp v L. unfold observe in L. cbn [ob_allow] in L. apply (look2_sound (allow_of s')) in L. exact L. }
-    destruct (exec_facts hc c (clear_logs s) r s' _ _ _ prev (observe univ s') HI HS HA HA' eq_refl eq_refl Hp eq_refl eq_refl Hs)
+    destruct (exec_facts hc c (clear_logs s) r s' _ _ _ prev (observe univ s') HI HS HA HA' eq_refl eq_refl Hp eq_refl eq_refl Hl1 Hl2 Hs)
       as (G & A & P & N).
     rewrite G. cbn [andb].
     unfold observe at 1. cbn [ob_accts].
@@ -334,21 +365,24 @@ Qed.
 Lemma mon_model hc univ cs : forall s prev i,
   Inv s -> ob_paused prev = paused s -> ob_accts prev = map (acct_of s) univ ->
   ob_allow prev = map (allow_of s) (pairs univ) ->
-  ob_cmp_set prev = cmp_set s -> ob_idv_set prev = idv_set s ->
+  ob_cmp_at prev = link_cmp s -> ob_idv_at prev = link_idv s -> ob_supply prev = supply s ->
+  forallb (wf_call univ) cs = true ->
   mon_from univ prev (model_items hc univ s cs) i = 0%N.
 Proof.
-  induction cs as [|c cs IH]; intros s prev i HI Hp Ha Hal Hl1 Hl2; cbn [model_items mon_from]; auto.
+  induction cs as [|c cs IH]; intros s prev i HI Hp Ha Hal Hl1 Hl2 Hsu Hwf; cbn [model_items mon_from]; auto.
+  cbn [forallb] in Hwf. apply andb_prop in Hwf. destruct Hwf as [Hw1 Hw2].
   destruct (step hc s c) as [s' o] eqn:Hs. cbn [mon_from].
-  rewrite (mon_step_model hc univ prev s c s' o HI Hp Ha Hal Hl1 Hl2 Hs). cbn [it_obs].
-  apply IH; try reflexivity.
+  rewrite (mon_step_model hc univ prev s c s' o HI Hp Ha Hal Hl1 Hl2 Hsu Hw1 Hs). cbn [it_obs].
+  apply IH; try reflexivity; auto.
   pose proof (step_preserves_Inv hc s c HI) as P. rewrite Hs in P. exact P.
 Qed.
 
 (* C04_monitor_accepts_model *)
 Theorem check_accepts_model : forall (hc : hostcfg) (univ : list addr) (cs : list call),
+  forallb (wf_call univ) cs = true ->
   check (observe_model hc univ cs) = (0%N, 0%N, 0%N).
 Proof.
-  intros hc univ cs. unfold check, observe_model, mkTrace, check_token. cbn [t_hc t_univ t_items].
+  intros hc univ cs Hwf. unfold check, observe_model, mkTrace, check_token. cbn [t_hc t_univ t_items].
   rewrite diff_model, mon_model; auto.
   exact Inv_init.
 Qed.
